@@ -82,6 +82,20 @@ fn main() {
                 fuzz_summary = std::fs::read_to_string(p).ok().and_then(|s| serde_json::from_str(&s).ok());
             }
             "--no-evidence" => write_evidence = false,
+            "--fuzz-input" => {
+                i += 1;
+                let p = args.get(i).cloned().unwrap_or_else(|| usage());
+                std::env::set_var("VCHECK_PROP", &prop);
+                let data = std::fs::read(&p).unwrap_or_default();
+                voracle::fuzz::entry(&data);
+                println!("fuzz input {} ok", p);
+                std::process::exit(0);
+            }
+            "--fuzz-artifact" => {
+                i += 1;
+                let p = args.get(i).cloned().unwrap_or_else(|| usage());
+                std::process::exit(voracle::fuzz::artifact_to_replay(&prop, &p, seed));
+            }
             _ => usage(),
         }
         i += 1;
